@@ -363,6 +363,1332 @@ struct SetMachine
 };
 
 // ---------------------------------------------------------------------------------------------------------
+// exact values: rationals are exchanged as "num/den" (den > 0, reduced); doubles are converted exactly
+// ---------------------------------------------------------------------------------------------------------
+static std::string qs(const Rational& r)
+{
+   std::ostringstream o;
+   o << numerator(r) << "/" << denominator(r);
+   return o.str();
+}
+static std::string qs(double x)
+{
+   if(x != x || std::isinf(x))
+      return x != x ? "nan" : (x > 0 ? "inf" : "-inf");
+
+   return qs(Rational(x));
+}
+template <class R> static R qv(const std::string& t);
+template <> double qv<double>(const std::string& t)
+{
+   size_t c = t.find('/');
+   double n = atof(t.substr(0, c).c_str());
+   double d = (c == std::string::npos) ? 1.0 : atof(t.substr(c + 1).c_str());
+   return n / d;
+}
+template <> Rational qv<Rational>(const std::string& t)
+{
+   size_t c = t.find('/');
+   Rational n(atol(t.substr(0, c).c_str()));
+   Rational d((c == std::string::npos) ? 1L : atol(t.substr(c + 1).c_str()));
+   return n / d;
+}
+template <class R>
+static std::string svs(const SVectorBase<R>& v)
+{
+   std::ostringstream o;
+
+   for(int k = 0; k < v.size(); k++)
+      o << v.index(k) << ":" << qs(v.value(k)) << ";";
+
+   return o.str();
+}
+
+// ---------------------------------------------------------------------------------------------------------
+// vectors: a small register machine  D0 D1 (VectorBase)  S0 S1 (DSVectorBase)  X0 X1 (SSVectorBase)
+// ---------------------------------------------------------------------------------------------------------
+template <class R>
+struct VecMachine
+{
+   std::vector<VectorBase<R>> D;
+   std::vector<DSVectorBase<R>> S;
+   std::vector<std::unique_ptr<SSVectorBase<R>>> X;
+   std::shared_ptr<Tolerances> tol;
+
+   std::string dump()
+   {
+      std::ostringstream o;
+
+      for(size_t r = 0; r < D.size(); r++)
+      {
+         o << "D" << r << "=";
+
+         for(int i = 0; i < D[r].dim(); i++)
+            o << qs(D[r][i]) << ",";
+
+         o << " ";
+      }
+
+      for(size_t r = 0; r < S.size(); r++)
+         o << "S" << r << "=" << svs(S[r]) << " ";
+
+      for(size_t r = 0; r < X.size(); r++)
+      {
+         SSVectorBase<R>& x = *X[r];
+         o << "X" << r << "=" << (x.isSetup() ? "S" : "U") << ":";
+
+         for(int i = 0; i < x.dim(); i++)
+            o << qs(x[i]) << ",";
+
+         o << ":";
+
+         if(x.isSetup())
+            for(int k = 0; k < x.size(); k++)
+               o << x.index(k) << ",";
+
+         o << " ";
+      }
+
+      return o.str();
+   }
+   std::string init(const Toks& t)
+   {
+      int n = t.size() > 3 ? I(t[3]) : 4;
+      tol = std::make_shared<Tolerances>();
+      D.clear();
+      S.clear();
+      X.clear();
+
+      for(int r = 0; r < 2; r++)
+      {
+         D.push_back(VectorBase<R>(n));
+         D.back().clear();
+         S.push_back(DSVectorBase<R>(2));
+         X.emplace_back(new SSVectorBase<R>(n, tol));
+      }
+
+      return dump();
+   }
+   static bool sortedStrict(const SVectorBase<R>& v)
+   {
+      for(int k = 1; k < v.size(); k++)
+         if(v.index(k - 1) >= v.index(k))
+            return false;
+
+      return true;
+   }
+   static bool inDim(const SVectorBase<R>& v, int n)
+   {
+      for(int k = 0; k < v.size(); k++)
+         if(v.index(k) < 0 || v.index(k) >= n)
+            return false;
+
+      return true;
+   }
+   std::string op(const Toks& t)
+   {
+      const std::string& c = t[0];
+      std::string ret = "-";
+      auto reg = [&](size_t k)
+      {
+         return (size_t)(t[k][1] - '0');
+      };
+      auto val = [&](size_t k)
+      {
+         return qv<R>(t[k]);
+      };
+#define SKIP { return c + " ret=skip " + dump(); }
+
+      // ---- dense
+      if(c == "dset")
+      {
+         VectorBase<R>& d = D[reg(1)];
+         int i = I(t[2]);
+
+         if(i < 0 || i >= d.dim()) SKIP
+            d[i] = val(3);
+      }
+      else if(c == "dclear") D[reg(1)].clear();
+      else if(c == "dadd" || c == "dsub" || c == "ddot" || c == "dmadd")
+      {
+         VectorBase<R>& d = D[reg(1)];
+         VectorBase<R>& e = D[reg(c == "dmadd" ? 3 : 2)];
+
+         if(d.dim() != e.dim()) SKIP
+            if(c == "dadd") d += e;
+            else if(c == "dsub") d -= e;
+            else if(c == "ddot") ret = qs(R(d * e));
+            else d.multAdd(val(2), e);
+      }
+      else if(c == "dscale") D[reg(1)] *= val(2);
+      else if(c == "dmaxabs")
+      {
+         if(D[reg(1)].dim() <= 0) SKIP
+            ret = qs(R(D[reg(1)].maxAbs()));
+      }
+
+#ifdef C19_PROBE_MINABS
+      // VectorBase<R>::minAbs() is only instantiated in the compile probe of checks/C19.py
+      else if(c == "dminabs")
+      {
+         if(D[reg(1)].dim() <= 0) SKIP
+            ret = qs(R(D[reg(1)].minAbs()));
+      }
+
+#endif
+      else if(c == "dlen2") ret = qs(R(D[reg(1)].length2()));
+      else if(c == "dredim")
+      {
+         if(I(t[2]) < 0) SKIP
+            D[reg(1)].reDim(I(t[2]));
+      }
+      else if(c == "daddsv" || c == "dsubsv" || c == "dassignsv" || c == "dsetsv" || c == "ddotsv" || c == "sdotd")
+      {
+         VectorBase<R>& d = D[reg(c == "sdotd" ? 2 : 1)];
+         SVectorBase<R>& v = S[reg(c == "sdotd" ? 1 : 2)];
+
+         if(!inDim(v, d.dim())) SKIP
+            if(c == "daddsv") d += v;
+            else if(c == "dsubsv") d -= v;
+            else if(c == "dassignsv") d.assign(v);
+            else if(c == "dsetsv") d = v;
+            else if(c == "ddotsv") ret = qs(R(d * v));
+            else ret = qs(R(v * d));
+      }
+      else if(c == "dmaddsv" || c == "dmsubsv")
+      {
+         VectorBase<R>& d = D[reg(1)];
+         SVectorBase<R>& v = S[reg(3)];
+
+         if(!inDim(v, d.dim())) SKIP
+            if(c == "dmaddsv") d.multAdd(val(2), v);
+            else d.multSub(val(2), v);
+      }
+      else if(c == "daddss" || c == "dsubss" || c == "ddotss" || c == "dsetss" || c == "dassignss")
+      {
+         VectorBase<R>& d = D[reg(1)];
+         SSVectorBase<R>& x = *X[reg(2)];
+
+         if(d.dim() != x.dim() || (c == "dassignss" && !x.isSetup())) SKIP
+            if(c == "daddss") d += x;
+            else if(c == "dsubss") d -= x;
+            else if(c == "ddotss") ret = qs(R(d * x));
+            else if(c == "dsetss") d = x;
+            else d.assign(x);
+      }
+      else if(c == "dmaddss")
+      {
+         VectorBase<R>& d = D[reg(1)];
+         SSVectorBase<R>& x = *X[reg(3)];
+
+         if(d.dim() != x.dim()) SKIP
+            d.multAdd(val(2), x);
+      }
+      // ---- sparse
+      else if(c == "sadd")
+      {
+         if(I(t[2]) < 0) SKIP
+            S[reg(1)].add(I(t[2]), val(3));
+      }
+      else if(c == "saddn")
+      {
+         std::vector<int> ix;
+         std::vector<R> vs;
+
+         for(size_t k = 2; k + 1 < t.size(); k += 2)
+         {
+            ix.push_back(I(t[k]));
+            vs.push_back(val(k + 1));
+         }
+
+         S[reg(1)].add((int)ix.size(), ix.data(), vs.data());
+      }
+      else if(c == "srm")
+      {
+         if(I(t[2]) < 0 || I(t[2]) >= S[reg(1)].size()) SKIP
+            S[reg(1)].remove(I(t[2]));
+      }
+      else if(c == "srmr" || c == "srmrs")
+      {
+         // srmrs: only ranges that do not reach the last non-zero
+         int n = I(t[2]), m = I(t[3]);
+
+         if(!(0 <= n && n <= m && m < S[reg(1)].size()) || (c == "srmrs" && m >= S[reg(1)].size() - 1)) SKIP
+            S[reg(1)].remove(n, m);
+      }
+      else if(c == "sclear") S[reg(1)].clear();
+      else if(c == "sscale")
+      {
+         if(val(2) == 0) SKIP
+            S[reg(1)] *= val(2);
+      }
+      else if(c == "ssort") S[reg(1)].sort();
+      else if(c == "sassign")
+      {
+         if(reg(1) == reg(2)) SKIP
+            S[reg(1)] = S[reg(2)];
+      }
+      else if(c == "sfromd") S[reg(1)] = D[reg(2)];
+      else if(c == "sfromss")
+      {
+         if(!X[reg(2)]->isSetup()) SKIP
+            S[reg(1)] = *X[reg(2)];
+      }
+      else if(c == "sdot")
+      {
+         if(!sortedStrict(S[reg(1)]) || !sortedStrict(S[reg(2)])) SKIP
+            ret = qs(R(S[reg(1)] * S[reg(2)]));
+      }
+      else if(c == "smaxabs") ret = qs(R(S[reg(1)].maxAbs()));
+      else if(c == "sminabs")
+      {
+         if(S[reg(1)].size() == 0) SKIP
+            ret = qs(R(S[reg(1)].minAbs()));
+      }
+      else if(c == "slen2") ret = qs(R(S[reg(1)].length2()));
+      else if(c == "sdim") ret = std::to_string(S[reg(1)].dim());
+      else if(c == "spos") ret = std::to_string(S[reg(1)].pos(I(t[2])));
+      else if(c == "sget") ret = qs(R(S[reg(1)][I(t[2])]));
+      else if(c == "stimes")
+      {
+         if(reg(1) == reg(2)) SKIP
+            S[reg(1)] = S[reg(2)] * val(3);
+      }
+      else if(c == "sunit")
+      {
+         if(I(t[2]) < 0) SKIP
+            UnitVectorBase<R> u(I(t[2]));
+
+         S[reg(1)] = static_cast<const SVectorBase<R>&>(u);
+      }
+      // ---- semi-sparse
+      else if(c == "xset")
+      {
+         SSVectorBase<R>& x = *X[reg(1)];
+
+         if(I(t[2]) < 0 || I(t[2]) >= x.dim()) SKIP
+            x.setValue(I(t[2]), val(3));
+      }
+      else if(c == "xadd")
+      {
+         SSVectorBase<R>& x = *X[reg(1)];
+         int i = I(t[2]);
+
+         if(i < 0 || i >= x.dim() || !x.isSetup() || x[i] != 0 || x.pos(i) >= 0) SKIP
+            x.add(i, val(3));
+      }
+      else if(c == "xclearidx")
+      {
+         SSVectorBase<R>& x = *X[reg(1)];
+
+         if(I(t[2]) < 0 || I(t[2]) >= x.dim()) SKIP
+            x.clearIdx(I(t[2]));
+      }
+      else if(c == "xclearnum")
+      {
+         SSVectorBase<R>& x = *X[reg(1)];
+
+         if(!x.isSetup() || I(t[2]) < 0 || I(t[2]) >= x.size()) SKIP
+            x.clearNum(I(t[2]));
+      }
+      else if(c == "xclear") X[reg(1)]->clear();
+      else if(c == "xsetup") X[reg(1)]->setup();
+      else if(c == "xunsetup") X[reg(1)]->unSetup();
+      else if(c == "xscale")
+      {
+         if(!X[reg(1)]->isSetup() || val(2) == 0) SKIP
+            (*X[reg(1)]) *= val(2);
+      }
+      else if(c == "xadddv" || c == "xsubdv" || c == "xmadddv")
+      {
+         SSVectorBase<R>& x = *X[reg(1)];
+         VectorBase<R>& d = D[reg(c == "xmadddv" ? 3 : 2)];
+
+         if(x.dim() != d.dim()) SKIP
+            if(c == "xadddv") x += d;
+            else if(c == "xsubdv") x -= d;
+            else x.multAdd(val(2), d);
+      }
+      else if(c == "xaddsv" || c == "xsubsv" || c == "xsetsv" || c == "xmaddsv")
+      {
+         SSVectorBase<R>& x = *X[reg(1)];
+         SVectorBase<R>& v = S[reg(c == "xmaddsv" ? 3 : 2)];
+
+         if(!inDim(v, x.dim())) SKIP
+            if(c == "xaddsv") x += v;
+            else if(c == "xsubsv") x -= v;
+            else if(c == "xsetsv") x = v;
+            else x.multAdd(val(2), v);
+      }
+      else if(c == "xaddss" || c == "xsubss" || c == "xdot" || c == "xassign")
+      {
+         SSVectorBase<R>& x = *X[reg(1)];
+         SSVectorBase<R>& y = *X[reg(2)];
+
+         if(reg(1) == reg(2) || x.dim() != y.dim() || (c != "xsubss" && c != "xassign" && !y.isSetup())) SKIP
+            if(c == "xaddss") x += y;
+            else if(c == "xsubss") x -= y;
+            else if(c == "xdot") ret = qs(R(x * y));
+            else x = y;
+      }
+      else if(c == "xredim")
+      {
+         if(I(t[2]) < 1) SKIP
+            X[reg(1)]->reDim(I(t[2]));
+      }
+      else
+         ret = "unknown";
+
+#undef SKIP
+      return c + " ret=" + ret + " " + dump();
+   }
+};
+
+// ---------------------------------------------------------------------------------------------------------
+// SVSet<double>, LPRowSet<double>, LPColSet<double>: keys / numbers like DataSet, elements are vectors
+// (+ three scalars for rows and columns); the nonzero arena is exercised through add2 / xtend / memPack / memRemax
+// ---------------------------------------------------------------------------------------------------------
+struct SvsAcc
+{
+   typedef SVSetBase<double> Set;
+   static const int nscal = 0;
+   static void add(Set& s, DataKey& k, const double*, const DSVectorBase<double>& v)
+   {
+      s.add(k, v);
+   }
+   static double scal(const Set&, int, int)
+   {
+      return 0;
+   }
+   static void setScal(Set&, int, int, double) {}
+   static const SVectorBase<double>& vec(const Set& s, int n)
+   {
+      return s[n];
+   }
+   static SVSetBase<double>& base(Set& s)
+   {
+      return s;
+   }
+   static void add2(Set& s, int n, int cnt, const int* ix, const double* v)
+   {
+      s.add2(s[n], cnt, ix, v);
+   }
+   static void xtend(Set& s, int n, int m)
+   {
+      s.xtend(s[n], m);
+   }
+   static void removeNums(Set& s, const int* nums, int n, int* perm)
+   {
+      s.remove(nums, n, perm);
+   }
+};
+struct RowAcc
+{
+   typedef LPRowSetBase<double> Set;
+   static const int nscal = 3;
+   static void add(Set& s, DataKey& k, const double* sc, const DSVectorBase<double>& v)
+   {
+      s.add(k, sc[0], v, sc[1], sc[2]);
+   }
+   static double scal(const Set& s, int n, int j)
+   {
+      return j == 0 ? s.lhs(n) : (j == 1 ? s.rhs(n) : s.obj(n));
+   }
+   static void setScal(Set& s, int n, int j, double v)
+   {
+      if(j == 0) s.lhs_w(n) = v;
+      else if(j == 1) s.rhs_w(n) = v;
+      else s.obj_w(n) = v;
+   }
+   static const SVectorBase<double>& vec(const Set& s, int n)
+   {
+      return s.rowVector(n);
+   }
+   static SVSetBase<double>& base(Set& s)
+   {
+      return (SVSetBase<double>&)s;      // private base class
+   }
+   static void add2(Set& s, int n, int cnt, const int* ix, const double* v)
+   {
+      s.add2(n, cnt, ix, v);
+   }
+   static void xtend(Set& s, int n, int m)
+   {
+      s.xtend(n, m);
+   }
+   static void removeNums(Set& s, const int* nums, int n, int* perm)
+   {
+      s.remove(nums, n, perm);
+   }
+};
+struct ColAcc
+{
+   typedef LPColSetBase<double> Set;
+   static const int nscal = 3;
+   static void add(Set& s, DataKey& k, const double* sc, const DSVectorBase<double>& v)
+   {
+      s.add(k, sc[2], sc[0], v, sc[1]);      // (obj, lower, vector, upper); scalars are [lower, upper, obj]
+   }
+   static double scal(const Set& s, int n, int j)
+   {
+      return j == 0 ? s.lower(n) : (j == 1 ? s.upper(n) : s.maxObj(n));
+   }
+   static void setScal(Set& s, int n, int j, double v)
+   {
+      if(j == 0) s.lower_w(n) = v;
+      else if(j == 1) s.upper_w(n) = v;
+      else s.maxObj_w(n) = v;
+   }
+   static const SVectorBase<double>& vec(const Set& s, int n)
+   {
+      return s.colVector(n);
+   }
+   static SVSetBase<double>& base(Set& s)
+   {
+      return (SVSetBase<double>&)s;      // private base class
+   }
+   static void add2(Set& s, int n, int cnt, const int* ix, const double* v)
+   {
+      s.add2(n, cnt, ix, v);
+   }
+   static void xtend(Set& s, int n, int m)
+   {
+      s.xtend(n, m);
+   }
+   static void removeNums(Set& s, const int* nums, int n, int* perm)
+   {
+      s.remove(nums, n, perm);
+   }
+};
+
+template <class A>
+struct VSetMachine
+{
+   typedef typename A::Set Set;
+   Set* s = nullptr;
+   ~VSetMachine()
+   {
+      delete s;
+   }
+   std::string init(const Toks& t)
+   {
+      s = new Set(t.size() > 3 ? I(t[3]) : 2, t.size() > 4 ? I(t[4]) : 4);
+      return dump();
+   }
+   std::string dump()
+   {
+      std::ostringstream o;
+      SVSetBase<double>& b = A::base(*s);
+      o << "num=" << b.num() << " max=" << b.max() << " keys=";
+
+      for(int n = 0; n < b.num(); n++)
+         o << b.key(n).idx << ",";
+
+      o << " slots=";
+
+      for(int i = 0; i < b.set.size(); i++)
+      {
+         DataKey k(0, i);
+
+         if(b.has(k))
+            o << b.number(k) << ",";
+         else
+            o << "x,";
+      }
+
+      o << " vecs=";
+
+      for(int n = 0; n < b.num(); n++)
+      {
+         for(int j = 0; j < A::nscal; j++)
+            o << qs(A::scal(*s, n, j)) << ",";
+
+         o << svs(A::vec(*s, n)) << "|";
+      }
+
+      o << " bykey=";
+
+      for(int i = 0; i < b.set.size(); i++)
+      {
+         DataKey k(0, i);
+
+         if(b.has(k))
+            o << svs(b[k]) << "|";
+         else
+            o << "x|";
+      }
+
+      return o.str();
+   }
+   static std::string list(const char* tag, const int* a, int n)
+   {
+      std::ostringstream o;
+      o << tag;
+
+      for(int i = 0; i < n; i++)
+         o << a[i] << ",";
+
+      return o.str();
+   }
+   // entries "i v i v ..." starting at token k
+   static void entries(const Toks& t, size_t k, std::vector<int>& ix, std::vector<double>& vs)
+   {
+      for(; k + 1 < t.size(); k += 2)
+      {
+         ix.push_back(I(t[k]));
+         vs.push_back(qv<double>(t[k + 1]));
+      }
+   }
+   std::string op(const Toks& t)
+   {
+      const std::string& c = t[0];
+      std::string ret = "-";
+      SVSetBase<double>& b = A::base(*s);
+
+      if(c == "add")
+      {
+         double sc[3] = {0, 0, 0};
+         size_t k = 1;
+
+         for(int j = 0; j < A::nscal; j++)
+            sc[j] = qv<double>(t[k++]);
+
+         std::vector<int> ix;
+         std::vector<double> vs;
+         entries(t, k, ix, vs);
+         DSVectorBase<double> v((int)ix.size() + 1);
+
+         for(size_t e = 0; e < ix.size(); e++)
+         {
+            // DSVector::add(i, v) drops zeros; the set's assignment drops them as well
+            v.add(ix[e], vs[e]);
+         }
+
+         DataKey key;
+         A::add(*s, key, sc, v);
+         ret = "key:" + std::to_string(key.idx);
+      }
+      else if(c == "add2")
+      {
+         int n = I(t[1]);
+
+         if(!b.has(n))
+            ret = "skip";
+         else
+         {
+            std::vector<int> ix;
+            std::vector<double> vs;
+            entries(t, 2, ix, vs);
+            A::add2(*s, n, (int)ix.size(), ix.data(), vs.data());
+         }
+      }
+      else if(c == "xtend")
+      {
+         int n = I(t[1]);
+
+         if(!b.has(n) || I(t[2]) < 0)
+            ret = "skip";
+         else
+            A::xtend(*s, n, I(t[2]));
+      }
+      else if(c == "setscal")
+      {
+         int n = I(t[1]);
+
+         if(!b.has(n) || I(t[2]) >= A::nscal)
+            ret = "skip";
+         else
+            A::setScal(*s, n, I(t[2]), qv<double>(t[3]));
+      }
+      else if(c == "rm")
+      {
+         if(!b.has(I(t[1])))
+            ret = "skip";
+         else
+            s->remove(I(t[1]));
+      }
+      else if(c == "rmk")
+      {
+         int k = I(t[1]);
+
+         if(k < 0 || k >= b.set.size() || !b.has(DataKey(0, k)))
+            ret = "skip";
+         else
+            s->remove(DataKey(0, k));
+      }
+      else if(c == "rmp")
+      {
+         int n = b.num();
+         std::vector<int> perm(n + 1, 0);
+
+         for(int k = 0; k < n; k++)
+            perm[k] = (k + 1 < (int)t.size()) ? I(t[1 + k]) : 0;
+
+         s->remove(perm.data());
+         ret = list("perm:", perm.data(), n);
+      }
+      else if(c == "rmn")
+      {
+         int n = (int)t.size() - 1, num = b.num();
+         std::vector<int> nums;
+         bool ok = true;
+
+         for(int i = 0; i < n; i++)
+         {
+            nums.push_back(I(t[1 + i]));
+            ok = ok && b.has(nums.back());
+         }
+
+         if(ok)
+         {
+            std::vector<int> perm(num + 1, 0);
+            A::removeNums(*s, nums.data(), n, perm.data());
+            ret = list("perm:", perm.data(), num);
+         }
+         else
+            ret = "skip";
+      }
+      else if(c == "clear")
+         s->clear();
+      else if(c == "remax")
+         s->reMax(I(t[1]));
+      else if(c == "memremax")
+         s->memRemax(I(t[1]));
+      else if(c == "mempack")
+         s->memPack();
+      else if(c == "copy")
+      {
+         Set* n = new Set(*s);
+         delete s;
+         s = n;
+      }
+      else if(c == "assign")
+      {
+         Set* n = new Set(I(t[1]), 2);
+         *n = *s;
+         delete s;
+         s = n;
+      }
+      else
+         ret = "unknown";
+
+      return c + " ret=" + ret + " " + dump();
+   }
+};
+
+// ---------------------------------------------------------------------------------------------------------
+// IdxSet (caller's buffer, with one spare int in front) and DIdxSet
+// ---------------------------------------------------------------------------------------------------------
+struct IdxMachine
+{
+   bool dyn = false;
+   std::vector<int> buf;
+   IdxSet* s = nullptr;
+   ~IdxMachine()
+   {
+      delete s;
+   }
+   std::string init(const Toks& t)
+   {
+      int m = t.size() > 3 ? I(t[3]) : 4;
+      dyn = (t[2] == "didx");
+
+      if(dyn)
+         s = new DIdxSet(m);
+      else
+      {
+         buf.assign(m + 2, -77);
+         s = new IdxSet(m, buf.data() + 1);
+      }
+
+      return dump();
+   }
+   std::string dump()
+   {
+      std::ostringstream o;
+      o << "size=" << s->size() << " max=" << s->max() << " idx=";
+
+      for(int n = 0; n < s->size(); n++)
+         o << s->index(n) << ",";
+
+      o << " dim=" << s->dim() << " pos=";
+
+      for(int i = 0; i < 8; i++)
+         o << s->pos(i) << ",";
+
+      if(!dyn)
+         o << " under=" << (buf[0] == -77 ? 0 : 1);
+
+      return o.str();
+   }
+   std::string op(const Toks& t)
+   {
+      const std::string& c = t[0];
+      std::string ret = "-";
+
+      if(c == "addidx")
+      {
+         if(!dyn && s->size() >= s->max())
+            ret = "skip";
+         else if(dyn)
+            static_cast<DIdxSet*>(s)->addIdx(I(t[1]));
+         else
+            s->addIdx(I(t[1]));
+      }
+      else if(c == "addn")
+      {
+         std::vector<int> v;
+
+         for(size_t k = 1; k < t.size(); k++)
+            v.push_back(I(t[k]));
+
+         if(!dyn && s->size() + (int)v.size() > s->max())
+            ret = "skip";
+         else if(dyn)
+            static_cast<DIdxSet*>(s)->add((int)v.size(), v.data());
+         else
+            s->add((int)v.size(), v.data());
+      }
+      else if(c == "rm")
+      {
+         if(I(t[1]) < 0 || I(t[1]) >= s->size())
+            ret = "skip";
+         else
+            s->remove(I(t[1]));
+      }
+      else if(c == "rmr")
+      {
+         int n = I(t[1]), m = I(t[2]);
+
+         // for DIdxSet a range ending at the last index with n == 0 would write in front of the heap block
+         if(!(0 <= n && n <= m && m < s->size()) || (dyn && n == 0 && m == s->size() - 1))
+            ret = "skip";
+         else
+            s->remove(n, m);
+      }
+      else if(c == "clear")
+         s->clear();
+      else if(c == "setmax")
+      {
+         if(!dyn)
+            ret = "skip";
+         else
+            static_cast<DIdxSet*>(s)->setMax(I(t[1]));
+      }
+      else if(c == "copy")
+      {
+         if(!dyn)
+            ret = "skip";
+         else
+         {
+            DIdxSet* n = new DIdxSet(*static_cast<DIdxSet*>(s));
+            delete s;
+            s = n;
+         }
+      }
+      else if(c == "assign")
+      {
+         if(!dyn)
+            ret = "skip";
+         else
+         {
+            DIdxSet* n = new DIdxSet(I(t[1]));
+            *n = *static_cast<DIdxSet*>(s);
+            delete s;
+            s = n;
+         }
+      }
+      else
+         ret = "unknown";
+
+      return c + " ret=" + ret + " " + dump();
+   }
+};
+
+// ---------------------------------------------------------------------------------------------------------
+// NameSet: names are "n<id>"
+// ---------------------------------------------------------------------------------------------------------
+struct NameMachine
+{
+   NameSet* s = nullptr;
+   ~NameMachine()
+   {
+      delete s;
+   }
+   static std::string nm(int id)
+   {
+      return "n" + std::to_string(id);
+   }
+   static int idOf(const char* p)
+   {
+      return atoi(p + 1);
+   }
+   std::string init(const Toks& t)
+   {
+      s = new NameSet(t.size() > 3 ? I(t[3]) : 2, t.size() > 4 ? I(t[4]) : 8);
+      return dump();
+   }
+   std::string dump()
+   {
+      std::ostringstream o;
+      o << "num=" << s->num() << " max=" << s->max() << " size=" << s->size() << " names=";
+
+      for(int n = 0; n < s->num(); n++)
+         o << idOf((*s)[n]) << ",";
+
+      o << " keys=";
+
+      for(int n = 0; n < s->num(); n++)
+         o << s->key(n).idx << ",";
+
+      o << " look=";
+
+      for(int id = 0; id < 8; id++)
+      {
+         std::string name = nm(id);
+
+         if(s->has(name.c_str()))
+         {
+            DataKey k = s->key(name.c_str());
+            o << s->number(name.c_str()) << ":" << k.idx << ":" << idOf((*s)[k]) << ",";
+         }
+         else
+            o << "-:" << s->number(name.c_str()) << ":" << s->key(name.c_str()).idx << ",";
+      }
+
+      return o.str();
+   }
+   std::string op(const Toks& t)
+   {
+      const std::string& c = t[0];
+      std::string ret = "-";
+
+      if(c == "add")
+      {
+         DataKey k;
+         s->add(k, nm(I(t[1])).c_str());
+         ret = k.isValid() ? "key:" + std::to_string(k.idx) : "none";
+      }
+      else if(c == "rmname")
+         s->remove(nm(I(t[1])).c_str());
+      else if(c == "rmnum")
+      {
+         if(!s->has(I(t[1])))
+            ret = "skip";
+         else
+            s->remove(I(t[1]));
+      }
+      else if(c == "rmkey")
+      {
+         int k = I(t[1]);
+
+         if(k < 0 || k >= s->size() || !s->has(DataKey(0, k)))
+            ret = "skip";
+         else
+            s->remove(DataKey(0, k));
+      }
+      else if(c == "rmnums" || c == "rmkeys")
+      {
+         std::vector<int> v;
+         std::vector<DataKey> ks;
+         bool ok = true;
+
+         for(size_t i = 1; i < t.size(); i++)
+         {
+            int x = I(t[i]);
+            ok = ok && std::find(v.begin(), v.end(), x) == v.end();
+            v.push_back(x);
+
+            if(c == "rmnums")
+               ok = ok && s->has(x);
+            else
+            {
+               ok = ok && x >= 0 && x < s->size() && s->has(DataKey(0, x));
+               ks.push_back(DataKey(0, x));
+            }
+         }
+
+         if(!ok)
+            ret = "skip";
+         else if(c == "rmnums")
+            s->remove(v.data(), (int)v.size());
+         else
+            s->remove(ks.data(), (int)ks.size());
+      }
+      else if(c == "rmp")
+      {
+         int n = s->num();
+         std::vector<int> perm(n + 1, 0);
+
+         for(int k = 0; k < n; k++)
+            perm[k] = (k + 1 < (int)t.size()) ? I(t[1 + k]) : 0;
+
+         s->remove(perm.data());
+         std::ostringstream o;
+         o << "perm:";
+
+         for(int k = 0; k < n; k++)
+            o << perm[k] << ",";
+
+         ret = o.str();
+      }
+      else if(c == "clear")
+         s->clear();
+      else if(c == "remax")
+         s->reMax(I(t[1]));
+      else if(c == "memremax")
+         s->memRemax(I(t[1]));
+      else if(c == "mempack")
+         s->memPack();
+      else
+         ret = "unknown";
+
+      return c + " ret=" + ret + " " + dump();
+   }
+};
+
+// ---------------------------------------------------------------------------------------------------------
+// DataHashTable<int,int>
+// ---------------------------------------------------------------------------------------------------------
+static int intHash(const int* k)
+{
+   return (*k + 2) * 7 + 3;  // non-negative for the keys -2..7 used here (the table indexes with hash % size)
+}
+struct HashMachine
+{
+   DataHashTable<int, int>* h = nullptr;
+   ~HashMachine()
+   {
+      delete h;
+   }
+   std::string init(const Toks& t)
+   {
+      h = new DataHashTable<int, int>(intHash, t.size() > 3 ? I(t[3]) : 3, t.size() > 4 ? I(t[4]) : 0);
+      return dump();
+   }
+   std::string dump()
+   {
+      std::ostringstream o;
+      o << "look=";
+
+      for(int k = -2; k < 8; k++)
+      {
+         if(h->has(k))
+            o << *h->get(k) << ",";
+         else
+            o << (h->get(k) == nullptr ? "-," : "?,");
+      }
+
+      return o.str();
+   }
+   std::string op(const Toks& t)
+   {
+      const std::string& c = t[0];
+      std::string ret = "-";
+
+      if(c == "add")
+      {
+         if(h->has(I(t[1])))
+            ret = "skip";
+         else
+            h->add(I(t[1]), I(t[2]));
+      }
+      else if(c == "rm")
+         h->remove(I(t[1]));
+      else if(c == "clear")
+         h->clear();
+      else if(c == "remax")
+         h->reMax(I(t[1]), t.size() > 2 ? I(t[2]) : 0);
+      else if(c == "copy")
+      {
+         DataHashTable<int, int>* n = new DataHashTable<int, int>(*h);
+         delete h;
+         h = n;
+      }
+      else if(c == "assign")
+      {
+         DataHashTable<int, int>* n = new DataHashTable<int, int>(intHash, 2);
+         *n = *h;
+         delete h;
+         h = n;
+      }
+      else
+         ret = "unknown";
+
+      return c + " ret=" + ret + " " + dump();
+   }
+};
+
+// ---------------------------------------------------------------------------------------------------------
+// DataArray<int>, Array<Elem>, ClassArray<Elem>
+// ---------------------------------------------------------------------------------------------------------
+template <class ARR, class E, int KIND>      // KIND 0 DataArray, 1 Array, 2 ClassArray
+struct ArrMachine
+{
+   ARR* a = nullptr;
+   ~ArrMachine()
+   {
+      delete a;
+   }
+   std::string init(const Toks& t)
+   {
+      a = new ARR(0);
+      return dump();
+   }
+   std::string dump()
+   {
+      std::ostringstream o;
+      o << "size=" << a->size() << " elems=";
+
+      for(int i = 0; i < a->size(); i++)
+         o << val((*a)[i]) << ",";
+
+      return o.str();
+   }
+   std::string op(const Toks& t)
+   {
+      const std::string& c = t[0];
+      std::string ret = "-";
+      std::vector<E> xs;
+
+      if(c == "append")
+         a->append(E(I(t[1])));
+      else if(c == "appendn")
+      {
+         for(size_t k = 1; k < t.size(); k++)
+            xs.push_back(E(I(t[k])));
+
+         a->append((int)xs.size(), xs.data());
+      }
+      else if(c == "insert")
+      {
+         int i = I(t[1]);
+
+         for(size_t k = 2; k < t.size(); k++)
+            xs.push_back(E(I(t[k])));
+
+         if(i < 0 || i > a->size())
+            ret = "skip";
+         else
+            a->insert(i, (int)xs.size(), xs.data());
+      }
+      else if(c == "remove")
+      {
+         int n = I(t[1]), m = I(t[2]);
+
+         if(n < 0 || n >= a->size() || m < 0)
+            ret = "skip";
+         else
+            a->remove(n, m);
+      }
+      else if(c == "removelast")
+         ret = removeLast(I(t[1]));
+      else if(c == "clear")
+         a->clear();
+      else if(c == "resize")
+      {
+         int n = I(t[1]), old = a->size();
+
+         if(n < 0)
+            ret = "skip";
+         else
+         {
+            a->reSize(n);
+
+            for(int i = old; i < n; i++)
+               (*a)[i] = E(0);
+         }
+      }
+      else if(c == "remax")
+         ret = reMax(I(t[1]));
+      else if(c == "copy")
+      {
+         ARR* n = new ARR(*a);
+         delete a;
+         a = n;
+      }
+      else if(c == "assign")
+      {
+         ARR* n = new ARR(I(t[1]) < 0 ? 0 : I(t[1]));
+
+         for(int i = 0; i < n->size(); i++)
+            (*n)[i] = E(0);
+
+         *n = *a;
+         delete a;
+         a = n;
+      }
+      else
+         ret = "unknown";
+
+      return c + " ret=" + ret + " " + dump();
+   }
+   template <int K = KIND> typename std::enable_if<K == 1, std::string>::type removeLast(int)
+   {
+      return "skip";
+   }
+   template <int K = KIND> typename std::enable_if < K != 1, std::string >::type removeLast(int m)
+   {
+      if(m < 0 || m > a->size())
+         return "skip";
+
+      a->removeLast(m);
+      return "-";
+   }
+   template <int K = KIND> typename std::enable_if<K == 1, std::string>::type reMax(int)
+   {
+      return "skip";
+   }
+   template <int K = KIND> typename std::enable_if < K != 1, std::string >::type reMax(int m)
+   {
+      a->reMax(m);
+      return "-";
+   }
+};
+
+// ---------------------------------------------------------------------------------------------------------
+// IdList / IsList of nodes 0..7
+// ---------------------------------------------------------------------------------------------------------
+struct IsNode
+{
+   int id;
+   IsNode* nx;
+   IsNode() : id(-1), nx(nullptr) {}
+   IsNode*& next()
+   {
+      return nx;
+   }
+   IsNode* const& next() const
+   {
+      return nx;
+   }
+};
+struct IdPayload
+{
+   int id;
+   IdPayload() : id(-1) {}
+};
+typedef IdElement<IdPayload> IdNode;
+
+template <class LIST, class NODE, bool DOUBLY>
+struct ListMachine
+{
+   LIST l;
+   NODE nodes[8];
+   bool in[8];
+   std::string init(const Toks&)
+   {
+      for(int i = 0; i < 8; i++)
+      {
+         nodes[i].id = i;
+         in[i] = false;
+      }
+
+      return dump();
+   }
+   std::string fwd()
+   {
+      std::ostringstream o;
+      int guard = 0;
+
+      for(NODE* p = l.first(); p && guard < 20; p = l.next(p), guard++)
+         o << p->id << ",";
+
+      return o.str();
+   }
+   template <bool B = DOUBLY> typename std::enable_if<B, std::string>::type bwd()
+   {
+      std::ostringstream o;
+      int guard = 0;
+
+      for(NODE* p = l.last(); p && guard < 20; p = l.prev(p), guard++)
+         o << p->id << ",";
+
+      return o.str();
+   }
+   template <bool B = DOUBLY> typename std::enable_if < !B, std::string >::type bwd()
+   {
+      return "-";
+   }
+   std::string dump()
+   {
+      std::ostringstream o;
+      o << "len=" << l.length() << " fwd=" << fwd() << " bwd=" << bwd() << " first=" << (l.first() ? l.first()->id : -1)
+        << " last=" << (l.last() ? l.last()->id : -1) << " find=";
+
+      for(int i = 0; i < 8; i++)
+         o << (l.find(&nodes[i]) ? 1 : 0);
+
+      return o.str();
+   }
+   std::string op(const Toks& t)
+   {
+      const std::string& c = t[0];
+      std::string ret = "-";
+      int x = t.size() > 1 ? I(t[1]) : 0;
+      int y = t.size() > 2 ? I(t[2]) : 0;
+      bool okx = x >= 0 && x < 8, oky = y >= 0 && y < 8;
+
+      if(c == "append" || c == "prepend")
+      {
+         if(!okx || in[x])
+            ret = "skip";
+         else
+         {
+            nodes[x].next() = nullptr;
+
+            if(c == "append") l.append(&nodes[x]);
+            else l.prepend(&nodes[x]);
+
+            in[x] = true;
+         }
+      }
+      else if(c == "insert")
+      {
+         if(!okx || !oky || in[x] || !in[y])
+            ret = "skip";
+         else
+         {
+            nodes[x].next() = nullptr;
+            l.insert(&nodes[x], &nodes[y]);
+            in[x] = true;
+         }
+      }
+      else if(c == "remove")
+      {
+         if(!okx || !in[x])
+            ret = "skip";
+         else
+         {
+            l.remove(&nodes[x]);
+            in[x] = false;
+         }
+      }
+      else if(c == "removenext")
+      {
+         if(!okx || !in[x] || l.next(&nodes[x]) == nullptr)
+            ret = "skip";
+         else
+         {
+            in[l.next(&nodes[x])->id] = false;
+            l.remove_next(&nodes[x]);
+         }
+      }
+      else if(c == "clear")
+      {
+         l.clear();
+
+         for(int i = 0; i < 8; i++)
+            in[i] = false;
+      }
+      else
+         ret = "unknown";
+
+      return c + " ret=" + ret + " " + dump();
+   }
+};
+
+// ---------------------------------------------------------------------------------------------------------
 struct Machine
 {
    virtual ~Machine() {}
@@ -390,6 +1716,45 @@ static Machine* make(const std::string& kind)
 
    if(kind == "cs" || kind == "csp")
       return new Wrap<SetMachine<ClassSet<Elem>, Elem>>();
+
+   if(kind == "vecd")
+      return new Wrap<VecMachine<double>>();
+
+   if(kind == "vecr")
+      return new Wrap<VecMachine<Rational>>();
+
+   if(kind == "svs")
+      return new Wrap<VSetMachine<SvsAcc>>();
+
+   if(kind == "lprs")
+      return new Wrap<VSetMachine<RowAcc>>();
+
+   if(kind == "lpcs")
+      return new Wrap<VSetMachine<ColAcc>>();
+
+   if(kind == "idx" || kind == "didx")
+      return new Wrap<IdxMachine>();
+
+   if(kind == "ns")
+      return new Wrap<NameMachine>();
+
+   if(kind == "ht")
+      return new Wrap<HashMachine>();
+
+   if(kind == "da")
+      return new Wrap<ArrMachine<DataArray<int>, int, 0>>();
+
+   if(kind == "ar")
+      return new Wrap<ArrMachine<Array<Elem>, Elem, 1>>();
+
+   if(kind == "ca")
+      return new Wrap<ArrMachine<ClassArray<Elem>, Elem, 2>>();
+
+   if(kind == "isl")
+      return new Wrap<ListMachine<IsList<IsNode>, IsNode, false>>();
+
+   if(kind == "idl")
+      return new Wrap<ListMachine<IdList<IdNode>, IdNode, true>>();
 
    return nullptr;
 }
